@@ -246,8 +246,67 @@ def enum_cases(ctx: Ctx):
            "target": "Album", "new_value": "é" * 66000}
 
 
+# ------------------------------------------------------------------------------------------------
+# position in the file: the [Song] section slid, character by character, across multiples of the usual buffer sizes
+# ------------------------------------------------------------------------------------------------
+_BLOCK_SONG = [["Name", '"A name"'], ["Artist", '"An artist"'], ["Charter", '"c"'], ["Offset", "7"],
+               ["Resolution", "480"], ["Player2", "rhythm"], ["Genre", '"metal"'], ["Year", '", 1999"'],
+               ["PreviewStart", "30"], ["MusicStream", '"song.ogg"']]
+
+
+def block_cases(ctx: Ctx):
+    sizes = [512, 4096, 8192, 65536] if ctx.quick else [512, 1024, 4096, 8192, 16384, 65536, 131072, 1048576]
+    span = sum(len(f"  {n} = {v}\n") for n, v in _BLOCK_SONG) + 12
+    for b in sizes:
+        for mult in ([1] if ctx.quick or b >= 65536 else [1, 2, 3]):
+            step = 1 if b <= 8192 or not ctx.quick else 2
+            yield {"block": b * mult, "shifts": [0, span, step], "nl": "\n" if (b // 512) % 2 else "\r\n"}
+
+
+def check_blocks(ctx: Ctx, case) -> None:
+    """A file that starts with an unrecognised filler section of such a size that the [Song] section begins
+    ``shift`` characters before character ``block``; for every shift in the range each line end and line start of
+    [Song] falls once exactly on the block boundary.  The decoded fields must not depend on where in the file the
+    section stands (a reader that works in blocks must not glue or split lines)."""
+    nl = case["nl"]
+    want = _expected([(n_, v_[1:-1] if v_.startswith('"') else v_) for n_, v_ in _BLOCK_SONG])
+    song = "[Song]" + nl + "{" + nl + "".join(f"  {n} = {v}" + nl for n, v in _BLOCK_SONG) + "}" + nl
+    tail = "[SyncTrack]" + nl + "{" + nl + "  0 = TS 4" + nl + "  0 = B 120000" + nl + "}" + nl + "[Events]" + nl + "{" + nl + "}" + nl
+    lo, hi, step = case["shifts"]
+    n = bad = 0
+    for shift in range(lo, hi, step):
+        target = case["block"] - shift            # length of everything before "[Song]"
+        head = "[Filler]" + nl + "{" + nl
+        foot = "}" + nl
+        room = target - len(head) - len(foot)
+        line = "  filler line " + "x" * 40 + nl
+        k, rest = divmod(room, len(line))
+        if rest and rest < len(nl) + 1:
+            k, rest = k - 1, rest + len(line)
+        body = line * k + (("y" * (rest - len(nl)) + nl) if rest else "")
+        text = head + body + foot + song + tail
+        assert len(head + body + foot) == target, (len(head + body + foot), target)
+        rc = {"block": case["block"], "shift": shift, "nl": nl}
+        ctx.current = dict(case, shifts=[shift, shift + 1, 1])
+        try:
+            md = L.parse(text).metadata
+        except Exception as e:  # noqa: BLE001
+            ctx.fail("metadata-parses", f"[Song] section starting {shift} characters before character {case['block']} of "
+                                        f"the file: {type(e).__name__}: {e}", ctx.current)
+            continue
+        got = obs_metadata(md)
+        if got != want:
+            badf = {f: (got[f], want[f]) for f in want if got[f] != want[f]}
+            ctx.fail("field-values", f"[Song] section starting {shift} characters before character {case['block']} of the "
+                                     f"file: decoded fields differ (got, expected): {badf}", ctx.current)
+        n += 1
+    ctx.current = case
+    ctx.note_bulk(n, n, classes={f"block_{case['block']}": n}, samples=[{"block": case["block"], "shifts": [lo, hi, step]}])
+
+
 PARTS: list[Part] = [
     enum_part("enumerated", enum_cases, check_body, {"quick": 1, "thorough": 1}),
+    enum_part("blocks", block_cases, check_blocks, {"quick": 4, "thorough": 8}),
     hyp_part("bodies", strat_bodies, check_body, {"quick": 800, "thorough": 25000},
              {"quick": 8, "thorough": 16}),
 ]
